@@ -603,7 +603,9 @@ func c16Check(w *mc.W, cs *c16Case) {
 			im, pix := c16NewImg(cs.Alpha, rect0)
 			var derr error
 			c16Render(im, rect0, op, func(d ivg.Destination) {
-				if v == 1 {
+				if v == 1 && cs.Op == 1 {
+					// (with the Src operator only: an option would also repair a suggested entry that
+					// the Encoder wrote wrongly, which the plain half of the cases must keep seeing)
 					// the suggested entry 1 given again as an option, in another colour model (same colour)
 					derr = decode.Decode(d, b, decode.WithColorAt(1, color.NRGBA{0xff, 0xff, 0xff, 0x80}), decode.WithColorAt(7, color.RGBA64{0x80ab, 0x40cd, 0x20ef, 0xffff})) // low bytes unlike the high ones
 				} else {
